@@ -4,11 +4,13 @@ package main
 // Authenticate entry points with locally minted credentials:
 //
 //	<tr> = grpc | http (security.AuthContext with a gRPC context / with an *http.Request)
-//	authn oidc <tr> <td> <expected audiences> <hdrform> <tokkind> <sub> <audkind> <aud>
+//	authn oidc <tr> <td> <expected audiences> <hdrform> <tokkind> <sub> <audkind> <aud> <ctor>
+//	      ctor: how NewJwtAuthenticator is called - j (JWT rule with jwks_uri) | d (OIDC discovery at the issuer), each with the mesh
+//	      watcher; jn | dn: with a NIL mesh watcher, as pilot/pkg/bootstrap RunCA did for TOKEN_ISSUER outside a cluster (fixed)
 //	mesh <td>   the trust domain of the mesh config changes: every later line of the case - whatever trust domain its
 //	      authenticator was constructed with - must produce identities of THIS trust domain
 //	      real NewJwtAuthenticator against an in-process JWKS endpoint; tokens minted with go-jose.
-//	      hdrform: none bearer istio basic bb (Basic, Bearer tok) two (Bearer other, Bearer tok) two2 (Bearer tok, Bearer other); tokkind: garbage expired wrongiss otherkey ok okfloat expiredfloat (fractional exp); audkind: list string absent
+//	      hdrform: nomd (gRPC: the context carries no incoming metadata at all; HTTP: no header) none bearer istio basic bb (Basic, Bearer tok) two (Bearer other, Bearer tok) two2 (Bearer tok, Bearer other); tokkind: garbage expired wrongiss otherkey ok okfloat expiredfloat (fractional exp); audkind: list string absent
 //	authn kube <tr> <td> <primary> <aliases a=b,..> <remotes|nil> <clusterid hdr|-> <hdrform> <token> <TokenAudiences> <review>
 //	      real NewKubeJWTAuthenticator over fake clientsets whose TokenReview reactor is scripted and
 //	      records the submitted Spec (token, audiences) and the cluster asked.
@@ -105,15 +107,26 @@ func newOIDCFixture() *oidcFixture {
 
 // authenticator returns the authenticator CONSTRUCTED under trust domain `td`; the mesh config it watches then
 // says `now` (the same unless a `mesh` op changed the trust domain since).
-func (f *oidcFixture) authenticator(td, now string, auds []string) (*authenticate.JwtAuthenticator, error) {
-	key := td + "\x00" + strings.Join(auds, "\x00")
+func (f *oidcFixture) authenticator(td, now string, auds []string, ctor string) (*authenticate.JwtAuthenticator, error) {
+	key := ctor + "\x00" + td + "\x00" + strings.Join(auds, "\x00")
+	nilHolder := strings.HasSuffix(ctor, "n")
 	if a, ok := f.auths[key]; ok {
-		a.watcher.Set(&meshconfig.MeshConfig{TrustDomain: now})
+		if !nilHolder {
+			a.watcher.Set(&meshconfig.MeshConfig{TrustDomain: now})
+		}
 		return a.auth, nil
 	}
 	rule := &v1beta1.JWTRule{Issuer: f.srv.URL, JwksUri: f.srv.URL, Audiences: auds}
-	if len(td)%2 == 0 {
+	if strings.HasPrefix(ctor, "d") {
 		rule.JwksUri = "" // the other branch of NewJwtAuthenticator: OIDC discovery at the issuer
+	}
+	if nilHolder {
+		a, err := authenticate.NewJwtAuthenticator(rule, nil)
+		if err != nil {
+			return nil, err
+		}
+		f.auths[key] = &oidcAuth{auth: a}
+		return a, nil
 	}
 	w := meshwatcher.NewTestWatcher(&meshconfig.MeshConfig{TrustDomain: td})
 	a, err := authenticate.NewJwtAuthenticator(rule, w)
@@ -414,6 +427,7 @@ type prepared struct {
 	rejected  bool
 	auth      security.Authenticator
 	http      bool
+	noMD      bool        // gRPC: no incoming metadata attached to the context
 	md        metadata.MD // gRPC metadata / HTTP headers
 	hasPeer   bool
 	peerAddr  string
@@ -458,13 +472,13 @@ func (s *authnSUT) prepare(f []string) (*prepared, error) {
 	p := &prepared{http: f[1] == "http", md: metadata.MD{}, hasPeer: true, peerAddr: "10.0.0.9:1234", authInfo: credentials.TLSInfo{}, via: new(string)}
 	switch f[0] {
 	case "oidc":
-		if len(f) != 9 {
+		if len(f) != 10 || (f[9] != "j" && f[9] != "d" && f[9] != "jn" && f[9] != "dn") {
 			return nil, errors.New("bad oidc line")
 		}
 		if s.oidc == nil {
 			s.oidc = newOIDCFixture()
 		}
-		a, err := s.oidc.authenticator(wire.Dec(f[2]), s.tdNow(wire.Dec(f[2])), wire.DecList(f[3]))
+		a, err := s.oidc.authenticator(wire.Dec(f[2]), s.tdNow(wire.Dec(f[2])), wire.DecList(f[3]), f[9])
 		if err != nil {
 			return nil, err
 		}
@@ -484,6 +498,7 @@ func (s *authnSUT) prepare(f []string) (*prepared, error) {
 		if v := authValues(f[4], tok, other); v != nil {
 			p.md["authorization"] = v
 		}
+		p.noMD = f[4] == "nomd"
 	case "kube":
 		if len(f) != 11 {
 			return nil, errors.New("bad kube line")
@@ -512,6 +527,9 @@ func (s *authnSUT) prepare(f []string) (*prepared, error) {
 		}
 		if v := authValues(f[7], wire.Dec(f[8]), "other-token"); v != nil {
 			p.md["authorization"] = v
+		}
+		if p.noMD = f[7] == "nomd"; p.noMD {
+			delete(p.md, "clusterid")
 		}
 	case "xfcc":
 		if len(f) != 6 {
@@ -576,6 +594,9 @@ func (p *prepared) grpcContext() context.Context {
 	ctx := context.Background()
 	if p.hasPeer {
 		ctx = peer.NewContext(ctx, &peer.Peer{Addr: textAddr(p.peerAddr), AuthInfo: p.authInfo})
+	}
+	if p.noMD {
+		return ctx
 	}
 	return metadata.NewIncomingContext(ctx, p.md)
 }
